@@ -213,11 +213,12 @@ def programs(tier):
     names = [f for f in _cwl.FEATURES if f != "nested_empty"]
     if tier == "quick":
         sel = ["expr", "clt", "scatter3", "scatter0", "flat", "when_false", "when_scatter", "pick_all", "merge_flat", "subwf", "loop3",
-               "loop3_all", "record", "file_out", "file_scatter", "file"]
+               "loop3_all", "record", "file_out", "file_scatter", "file", "dir_out", "dir_scatter", "dir_use"]
         return [{"features": [f]} for f in sel] + [{"features": ["file_scatter", "expr"]}, {"features": ["loop3", "file_out"]},
                                                      {"features": ["record", "scatter3"]}]
     progs = [{"features": [f]} for f in names]
-    reps = ["expr", "scatter3", "when_false", "loop3", "subwf", "file_out", "file_scatter", "record", "pick_first", "merge_nested"]
+    reps = ["expr", "scatter3", "when_false", "loop3", "subwf", "file_out", "file_scatter", "record", "pick_first", "merge_nested",
+            "dir_out"]
     progs += [{"features": [a, b]} for a, b in itertools.product(reps, repeat=2) if a != b]
     return progs
 
@@ -239,9 +240,9 @@ def main(argv=None):
     if rep.coverage.get("completed", 0) < 0.8 * len(progs):
         rep.internal_errors.append(f"only {rep.coverage.get('completed')} of {len(progs)} generated workflows complete")
     rep.coverage["rule"] = (
-        "generated CWL workflows of the C29 grammar (quick: 19 programs covering tools, scatter 0/3, flat cross product, when, "
-        "pickValue, linkMerge, sub-workflow, loops, records, File outputs single and scattered; thorough: every single feature + "
-        "all ordered pairs of 10 representatives), each executed by `streamflow run` on a file database and exported by "
+        "generated CWL workflows of the C29 grammar (quick: 22 programs covering tools, scatter 0/3, flat cross product, when, "
+        "pickValue, linkMerge, sub-workflow, loops, records, File and Directory (three files, one nested) outputs single and scattered; thorough: every single feature + "
+        "all ordered pairs of 11 representatives), each executed by `streamflow run` on a file database and exported by "
         "`streamflow prov`; oracle: readable zip, JSON-LD with unique @id, every reference resolves inside the graph, every File "
         "entity present with the recorded sha1 (and size), one CreateAction for the main workflow, every workflow input and output "
         "has a FormalParameter and a value entity whose leaves equal the run's values; distinct = (program, problem kinds)")
